@@ -532,6 +532,7 @@ def align_leaves(u, hyps, ref_terms, code_terms, names=None, label="leaf-argumen
     inconclusive; nothing is assumed."""
     import time as _time
     ref_terms = [z3.simplify(t) for t in ref_terms]
+    u.unmatched = []
     code_apps = symx.apps_of(code_terms)
     have = {a.get_id() for a in code_apps}
     pending = [r for r in symx.apps_of(ref_terms) if r.get_id() not in have]
@@ -581,32 +582,38 @@ def align_leaves(u, hyps, ref_terms, code_terms, names=None, label="leaf-argumen
                     break
                 u.r["obligations"] -= 1
             else:
-                # no code application has provably the reference's arguments: ask
-                # the solver where the closest one differs and replay that input;
-                # only a reproducing witness is kept (this is a search aid, the
-                # deciding obligation is the caller's)
-                if on_cex is not None and same and fr is not None and r.decl().name() in LEAF_NAMES \
-                        and sum(1 for c_ in u.r["cex"] if c_.get("reproduced")) < u.max_cex:
-                    cands = sorted([(abs(fc - fr), c) for fc, c in same if fc is not None],
-                                   key=lambda x: x[0])
-                    for _d, c in cands[:1]:
-                        eq = z3.And(*[r.arg(i) == c.arg(i) for i in range(r.num_args())])
-                        esyms = set(symx.consts_of([eq]))
-                        rel = [h for h, hs in hyp_syms if hs & esyms]
-                        ax = symx.axioms_from_apps(symx.apps_of(rel + [eq]))
-                        sol = z3.Solver()
-                        sol.set("timeout", 20000)
-                        sol.add(*symx.abstract_ufs(list(hyps) + ax + [z3.Not(eq)]))
-                        if str(sol.check()) == "sat":
-                            try:
-                                info = dict(on_cex(sol.model()))
-                            except Exception:
-                                info = {"reproduced": False}
-                            info.pop("block", None)
-                            if info.get("reproduced"):
-                                info["obligation"] = label
-                                u.r["cex"].append(info)
+                if same and fr is not None and r.decl().name() in LEAF_NAMES:
+                    u.unmatched.append((r, same, fr))
         if not subs:
             break
         ref_terms = [z3.substitute(t, *subs) for t in ref_terms]
     return ref_terms
+
+
+def search_witness(u, hyps, on_cex, label="leaf-arguments"):
+    """After a main obligation could not be discharged: for the reference leaf
+    applications that found no provably equal code application, ask the solver
+    where the closest code application's arguments differ and replay that
+    input.  Only a reproducing witness is kept (search aid, not a verdict)."""
+    found = False
+    for r, same, fr in getattr(u, "unmatched", [])[:4]:
+        if sum(1 for c_ in u.r["cex"] if c_.get("reproduced")) >= u.max_cex:
+            break
+        cands = sorted([(abs(fc - fr), c) for fc, c in same if fc is not None], key=lambda x: x[0])
+        for _d, c in cands[:1]:
+            eq = z3.And(*[r.arg(i) == c.arg(i) for i in range(r.num_args())])
+            ax = symx.axioms_from_apps(symx.apps_of(list(hyps) + [eq]))
+            sol = z3.Solver()
+            sol.set("timeout", 20000)
+            sol.add(*symx.abstract_ufs(list(hyps) + ax + [z3.Not(eq)]))
+            if str(sol.check()) == "sat":
+                try:
+                    info = dict(on_cex(sol.model()))
+                except Exception:
+                    info = {"reproduced": False}
+                info.pop("block", None)
+                if info.get("reproduced"):
+                    info["obligation"] = label
+                    u.r["cex"].append(info)
+                    found = True
+    return found
